@@ -306,7 +306,7 @@ class FTPProcessorSession(BaseProcessorSession):
                         response.body, duration_timeout=duration_timeout)
 
         except HookPreResponseBreak:
-            if response:
+            if response and response.body:
                 response.body.close()
 
         except REMOTE_ERRORS as error:
@@ -318,7 +318,7 @@ class FTPProcessorSession(BaseProcessorSession):
                 self._item_session, error=error
             )
 
-            if response:
+            if response and response.body:
                 response.body.close()
 
             return wait_time
